@@ -396,3 +396,13 @@ func (t *T) Panicked() string {
 	}
 	return fmt.Sprint(t.panicked)
 }
+
+// TraceLen is the logical clock of the execution: number of scheduling steps recorded so far.
+func (x *Execution) TraceLen() int {
+	x.mu.Lock()
+	defer x.mu.Unlock()
+	return len(x.Trace)
+}
+
+// X returns the thread's execution.
+func (t *T) X() *Execution { return t.x }
